@@ -1,22 +1,94 @@
-//! Detects optional verification hooks of the redis-sim tree this harness is built against, so
-//! that the harness builds before and after a hook commit has landed:
-//!   cfg `verif_h1c` = `production::verif_hooks::encode_reply` (hook H1c) is present.
+//! Derives, from the SOURCE of the dependency under test, the list of entry points the C02/C03
+//! harness must account for: `ShardMessage` variants, the `pub fn`s of `ShardedActorState` and of
+//! `ShardHandle`.  `src/api.rs` maps every name to how it is driven (or why it is not); a name
+//! that appears in the source but not in that map is reported by `./check C03` as
+//! `C03:api-not-covered:<name>`.
 use std::fs;
+use std::path::PathBuf;
 
 fn main() {
-    println!("cargo:rustc-check-cfg=cfg(verif_h1c)");
-    println!("cargo:rerun-if-changed=Cargo.toml");
-    let manifest = fs::read_to_string("Cargo.toml").unwrap_or_default();
-    let path = manifest
+    let manifest = fs::read_to_string("Cargo.toml").expect("Cargo.toml");
+    let dep = manifest
         .lines()
-        .find(|l| l.trim_start().starts_with("redis-sim"))
-        .and_then(|l| l.split("path").nth(1))
-        .and_then(|r| r.split('"').nth(1))
-        .unwrap_or("/repo")
+        .find(|l| l.starts_with("redis-sim"))
+        .and_then(|l| l.split("path = \"").nth(1))
+        .and_then(|r| r.split('"').next())
+        .expect("path of redis-sim in Cargo.toml")
         .to_string();
-    let f = format!("{}/src/production/mod.rs", path);
-    println!("cargo:rerun-if-changed={}", f);
-    if fs::read_to_string(&f).map(|s| s.contains("pub fn encode_reply")).unwrap_or(false) {
-        println!("cargo:rustc-cfg=verif_h1c");
+    let file = PathBuf::from(&dep).join("src/production/sharded_actor.rs");
+    println!("cargo:rerun-if-changed={}", file.display());
+    println!("cargo:rerun-if-changed=Cargo.toml");
+    let src = fs::read_to_string(&file).expect("sharded_actor.rs");
+    let mut messages = Vec::new();
+    let mut handle = Vec::new();
+    let mut state = Vec::new();
+    let mut config = Vec::new();
+    #[derive(PartialEq)]
+    enum Sec {
+        None,
+        Msg,
+        Handle,
+        State,
+        Config,
     }
+    let mut sec = Sec::None;
+    for line in src.lines() {
+        let t = line.trim_start();
+        if t.starts_with("pub enum ShardMessage") {
+            sec = Sec::Msg;
+            continue;
+        }
+        if t.starts_with("impl ShardHandle") {
+            sec = Sec::Handle;
+            continue;
+        }
+        if t.starts_with("impl ShardConfig") {
+            sec = Sec::Config;
+            continue;
+        }
+        if t.starts_with("impl ShardedActorState") || t.starts_with("impl<T: TimeSource> ShardedActorState") {
+            sec = Sec::State;
+            continue;
+        }
+        if line.starts_with('}') || t.starts_with("impl ShardActor ") || t.starts_with("impl Default for") {
+            if line.starts_with('}') {
+                sec = Sec::None;
+            }
+            continue;
+        }
+        match sec {
+            Sec::Msg => {
+                if line.starts_with("    ") && !line.starts_with("     ") {
+                    let name: String = t.chars().take_while(|c| c.is_alphanumeric()).collect();
+                    if !name.is_empty() && name.chars().next().unwrap().is_uppercase() {
+                        messages.push(name);
+                    }
+                }
+            }
+            Sec::Handle | Sec::State | Sec::Config => {
+                let is_pub = t.starts_with("pub fn ") || t.starts_with("pub async fn ");
+                let is_priv_handle = sec == Sec::Handle && (t.starts_with("async fn ") || t.starts_with("fn "));
+                if is_pub || is_priv_handle {
+                    let after = t.split("fn ").nth(1).unwrap_or("");
+                    let name: String = after.chars().take_while(|c| c.is_alphanumeric() || *c == '_').collect();
+                    match sec {
+                        Sec::Handle => handle.push(name),
+                        Sec::State => state.push(name),
+                        _ => config.push(name),
+                    }
+                }
+            }
+            Sec::None => {}
+        }
+    }
+    let list = |v: &Vec<String>| v.iter().map(|s| format!("{:?}", s)).collect::<Vec<_>>().join(", ");
+    let out = format!(
+        "pub const SHARD_MESSAGES: &[&str] = &[{}];\npub const HANDLE_FNS: &[&str] = &[{}];\npub const STATE_PUB_FNS: &[&str] = &[{}];\npub const CONFIG_PUB_FNS: &[&str] = &[{}];\n",
+        list(&messages),
+        list(&handle),
+        list(&state),
+        list(&config)
+    );
+    let dest = PathBuf::from(std::env::var("OUT_DIR").unwrap()).join("api_gen.rs");
+    fs::write(dest, out).unwrap();
 }
